@@ -158,9 +158,15 @@ def native_search(kind, a, b, int_cells=False, kmax=3):
     pos = [1, 2, 5] if int_cells else [0.25, 0.5, 1.0, 2.0]
     grid = pos if kind == "ratio" else signed
     wrap = (lambda x: np.int64(x)) if int_cells else float
-    for k in range(1, kmax + 1):
+    grids = [grid] if int_cells else [grid, [g * 1e-9 for g in grid]]          # also values of tiny magnitude: the aggregates are exact functions, not "close to" ones
+    for grid, k in [(g_, k_) for g_ in grids for k_ in range(1, kmax + 1)]:
+        if grid is not grids[0] and k > 2:
+            continue
         for vals in itertools.product(grid, repeat=k):
-            for ov in (grid if b is not None and a == "to_overall" else grid[:1]):
+            ovs = (grid if b is not None and a == "to_overall" else grid[:1])
+            if kind == "ratio" and a == "to_overall":
+                ovs = list(ovs) + [0]          # zero denominator: r = group/0 = inf for a positive group, min(r, 1/r) = 0
+            for ov in ovs:
                 bg = pd.DataFrame({"m": [wrap(v) for v in vals]}, index=pd.Index([f"g{i}" for i in range(k)], name="sf"))
                 dr = DisaggregatedResult(pd.Series({"m": wrap(ov)}), bg)
                 try:
@@ -171,10 +177,11 @@ def native_search(kind, a, b, int_cells=False, kmax=3):
                         want = max(vals) - min(vals) if a == "between_groups" else max(abs(v - ov) for v in vals)
                     else:
                         got = dr.ratio(None, method=a, errors=b)["m"]
-                        want = min(vals) / max(vals) if a == "between_groups" else min(min(v / ov, ov / v) for v in vals)
+                        want = min(vals) / max(vals) if a == "between_groups" else (0.0 if ov == 0 else min(min(v / ov, ov / v) for v in vals))
                 except Exception as ex:
                     got, want = f"{type(ex).__name__}: {ex}"[:120], "a number"
-                ok = isinstance(got, (int, float, np.number)) and not (isinstance(got, float) and math.isnan(got)) and abs(float(got) - float(want)) <= 1e-9
+                ok = isinstance(got, (int, float, np.number)) and not (isinstance(got, float) and math.isnan(got)) \
+                    and abs(float(got) - float(want)) <= 1e-9 * max(abs(float(want)), max(abs(float(v)) for v in vals))
                 if not ok:
                     return {"by_group": [float(v) for v in vals], "overall": float(ov), "integer_cells": int_cells, "call": [kind, a, b], "got": repr(got), "expected": repr(want)}
     return None
